@@ -616,7 +616,11 @@ func (j *jsonReader) Bitmask(realtag, tag int) (int32, error) {
 			var parsed int64
 			var err error
 			if strings.HasPrefix(part, "0x") {
-				parsed, err = strconv.ParseInt(part[2:], 16, 32)
+				// Flags are 32 bits wide: 0x80000000 is the sign bit of the int32 mask
+				var uparsed uint64
+				uparsed, err = strconv.ParseUint(part[2:], 16, 32)
+				//nolint:gosec // the value fits in 32 bits, the cast only reinterprets the sign bit
+				parsed = int64(int32(uint32(uparsed)))
 			} else {
 				parsed, err = strconv.ParseInt(part, 10, 32)
 				if err != nil {
